@@ -214,6 +214,62 @@ def build_harness(name, variant="real", sanitize=True, extra_flags=(), link_lib=
     return exe
 
 
+MPI_RUNTIME_RETRIES = 3
+MPI_STATS = {"launches": 0, "runtime_init_failures": 0}
+
+
+def mpi_runtime_init_failed(stderr):
+    """True iff the Open MPI *runtime* (ORTE) could not come up, i.e. the process died inside MPI_Init / mpiexec start-up
+    before a single line of the harness or of the library ran.  This is the launcher's failure, not behaviour of the code
+    under test: Open MPI keeps all session directories of one user under one shared directory <tmp>/ompi.<host>.<uid>, and
+    the finaliser of one process rmdir()s that directory when it is momentarily empty -- if another process is between
+    mkdir(<shared>) and mkdir(<shared>/pid.N) at that instant its orte_session_dir() fails with ENOENT
+    ("orte_session_dir failed ... Unable to start a daemon on the local node (-127)").  Reproduced in this sandbox by
+    running `while true; do rmdir /tmp/ompi.vm.0; done` next to a loop of MPI_Init/MPI_Finalize singletons."""
+    if not stderr:
+        return False
+    if "orte_init failed" not in stderr and "orte_session_dir failed" not in stderr:
+        return False
+    return ("orte_session_dir failed" in stderr or "orte_ess_init failed" in stderr
+            or "Unable to start a daemon on the local node" in stderr)
+
+
+def mpi_private_env(e, where):
+    """every launch gets a session-directory base of its own, so that no other MPI process (of this check, of a check
+    running next to it, or of anything else on the machine) can remove a directory this launch is about to use"""
+    e["OMPI_MCA_orte_tmpdir_base"] = where
+    e["PMIX_MCA_ptl_tcp_tmpdir"] = where        # harmless if unused; keeps PMIx rendezvous files out of the shared /tmp too
+    return e
+
+
+def run_mpi_process(cmd, env, timeout, stdin_text=None):
+    """subprocess.run with a private Open MPI session directory and a bounded retry that applies ONLY to a failed start
+    of the MPI runtime (see mpi_runtime_init_failed); anything the program itself does -- exit code, sanitizer report,
+    time-out -- is returned as it is, first time."""
+    import tempfile
+    last = None
+    for attempt in range(MPI_RUNTIME_RETRIES + 1):
+        MPI_STATS["launches"] += 1
+        with tempfile.TemporaryDirectory(prefix="pmmpi") as sd:
+            e = mpi_private_env(dict(env), sd)
+            try:
+                r = subprocess.run(cmd, input=stdin_text, stdout=subprocess.PIPE, stderr=subprocess.PIPE,
+                                   text=True, timeout=timeout, env=e, errors="replace")
+                last = (r.returncode, r.stdout, r.stderr)
+            except subprocess.TimeoutExpired as ex:
+                def dec(x):
+                    return x.decode(errors="replace") if isinstance(x, bytes) else (x or "")
+                return -999, dec(ex.stdout), dec(ex.stderr) + "\nTIMEOUT"
+        if last[0] != 0 and mpi_runtime_init_failed(last[2]):
+            MPI_STATS["runtime_init_failures"] += 1
+            log("[mpi] the Open MPI runtime failed to start (attempt %d of %d): relaunching %s"
+                % (attempt + 1, MPI_RUNTIME_RETRIES + 1, os.path.basename(cmd[0])))
+            time.sleep(0.2 * (attempt + 1))
+            continue
+        return last
+    return last
+
+
 def run_harness(exe, args, stdin_text=None, timeout=600, env=None, mpi_np=None, threads=1):
     e = dict(os.environ)
     e.update(MPI_ENV)
@@ -225,14 +281,7 @@ def run_harness(exe, args, stdin_text=None, timeout=600, env=None, mpi_np=None, 
     cmd = [exe] + list(args)
     if mpi_np:
         cmd = ["mpiexec", "--oversubscribe", "-np", str(mpi_np)] + cmd
-    try:
-        r = subprocess.run(cmd, input=stdin_text, stdout=subprocess.PIPE, stderr=subprocess.PIPE,
-                           text=True, timeout=timeout, env=e, errors="replace")
-        return r.returncode, r.stdout, r.stderr
-    except subprocess.TimeoutExpired as ex:
-        def dec(x):
-            return x.decode(errors="replace") if isinstance(x, bytes) else (x or "")
-        return -999, dec(ex.stdout), dec(ex.stderr) + "\nTIMEOUT"
+    return run_mpi_process(cmd, e, timeout, stdin_text)
 
 
 def sanitizer_report(stderr):
